@@ -199,7 +199,7 @@ def run_case(c, rng):
         raise
     except Exception as e:
         import traceback
-        if narrow and isinstance(e, TypeError):
+        if narrow and isinstance(e, (TypeError, ZeroDivisionError)):      # power law evaluated at or below Pmin: complex number or 0 ** negative
             c.violate('pdd_bands_overlap_build_failed', 'create_hydraulic_model raised %s: %s for Preq - Pmin narrower than the band width (options %s)' % (
                 type(e).__name__, str(e)[:120], {k: o[k] for k in ('minimum_pressure', 'required_pressure', 'pressure_exponent')}),
                 traceback=traceback.format_exc()[-1200:], spec=spec)
